@@ -115,7 +115,7 @@ func (p *Prop) Run(t *simhook.Tape, opt simkit.RunOpt) *simkit.RunResult {
 	res, abort := simkit.RunSolo(t, runBudget, runBudget, true, body)
 	rr := &simkit.RunResult{Hash: uint64(c.hash), Nontrivial: c.nontriv, Steps: res.Steps, History: c.hist, FaultTrace: c.ftrace, Policy: "seq"}
 	if abort != nil && c.viol == nil {
-		c.viol = &simkit.Violation{Property: "C18", Oracle: "C18/no-progress", Op: "run", Seq: res.Steps, Message: abort.Reason + " (termination within the step budget is part of the property)"}
+		c.viol = &simkit.Violation{Property: "C18", Oracle: "C18/no-progress", Op: "run", Seq: res.Steps, Message: abort.Reason + abort.Where() + " (termination within the step budget is part of the property)"}
 		rr.BudgetHit = true
 	}
 	rr.Violation = c.viol
